@@ -197,12 +197,81 @@ func c06Scenario() *explore.Scenario {
 	}
 }
 
-func c06Scenarios(thorough bool) []*explore.Scenario { return []*explore.Scenario{c06Scenario()} }
+// c06Reuse — one ClientHelloSpec variable is parsed into twice (FromRaw resets its receiver); a copy
+// of the spec kept from the first parse must still reproduce the first hello, the variable itself
+// the second.
+func c06Reuse() *explore.Scenario {
+	return &explore.Scenario{
+		Name: "one-spec-variable-parsed-into-twice",
+		Run: func(x *explore.X) (r explore.Result) {
+			srcs := c06Sources()
+			a := srcs[x.Choose("src", len(srcs))]
+			const nb = 8
+			b := srcs[(x.Choose("second", nb)*len(srcs)/nb+7)%len(srcs)]
+			what := fmt.Sprintf("spec.FromRaw(%s); kept := spec; spec.FromRaw(%s)", a.name, b.name)
+			var spec, kept tls.ClientHelloSpec
+			var e1, e2 error
+			if pm := catch(func() {
+				e1 = spec.FromRaw(recordOf(a.msg), true)
+				kept = spec
+				e2 = spec.FromRaw(recordOf(b.msg), true)
+			}); pm != "" {
+				r.Violate("C06|panic-fromraw-reuse", "%s: %s", what, pm)
+				return
+			}
+			if e1 != nil || e2 != nil {
+				r.Obs = "fromraw-error"
+				return
+			}
+			build := func(sp *tls.ClientHelloSpec, sni string) (*wire.Hello, error) {
+				cfg := peer.ClientConfig(sni)
+				if sni == "" {
+					cfg.InsecureSkipVerify = true
+				}
+				cfg.OmitEmptyPsk = true
+				stream, _, perr, pm := firstFlight(cfg, tls.HelloCustom, func(u *tls.UConn) error { return u.ApplyPreset(sp) })
+				if pm != "" {
+					return nil, fmt.Errorf("panic: %s", pm)
+				}
+				m, _, err := wire.FirstFlightHello(stream)
+				if err != nil {
+					return nil, fmt.Errorf("%v / %v", err, perr)
+				}
+				return wire.ParseClientHello(m)
+			}
+			for i, c := range []struct {
+				sp  *tls.ClientHelloSpec
+				src srcHello
+			}{{&kept, a}, {&spec, b}} {
+				h, _ := wire.ParseClientHello(c.src.msg)
+				h2, err := build(c.sp, sameLenName(c.src.sni))
+				which := []string{"kept-copy-of-first", "variable-after-second"}[i]
+				if err != nil {
+					r.Violate("C06|reuse|"+which+"|rebuild-fails|"+errClass(err), "%s: the %s spec cannot be applied and built: %v", what, which, err)
+					continue
+				}
+				na, nb := normHello(h, normOpts{keepSizes: true}), normHello(h2, normOpts{keepSizes: true})
+				if na != nb {
+					r.Violate("C06|reuse|"+which+"|shape-differs", "%s: the %s spec no longer reproduces its hello: %s", what, which, firstDiff(na, nb))
+				}
+			}
+			r.Obs = fmt.Sprintf("compared|viol=%d", len(r.Viol))
+			r.Nontrivial = true
+			r.Class = a.name + "|" + b.name
+			r.Count("reuse_compared", 1)
+			return
+		},
+	}
+}
+
+func c06Scenarios(thorough bool) []*explore.Scenario {
+	return []*explore.Scenario{c06Scenario(), c06Reuse()}
+}
 
 func init() {
 	register(&Prop{ID: "C06", Level: "exploration", Variant: "A", Scenarios: c06Scenarios,
 		Run: func(c *explore.Check, thorough bool) {
-			c.Rule = "wire hello of every ID (2 SNI lengths, 3 seeds per randomized kind), every generated custom spec (singletons, pairs, everything-once) and resumption-capture shapes (PSK with/without padding) x all 8 Fingerprinter flag sets: FingerprintClientHello -> ApplyPreset -> build with a different server name of the same length; normalised hello (GREASE, per-connection parts masked with sizes kept) and total length must be equal, and a second fingerprint/build round must reproduce the first. Allowed: error without AllowBluntMimicry; appended padding under AlwaysAddPadding; PSK dropped under RealPSKResumption. distinct = (source, flags)"
+			c.Rule = "wire hello of every ID (2 SNI lengths, 3 seeds per randomized kind), every generated custom spec (singletons, pairs, everything-once) and resumption-capture shapes (PSK with/without padding) x all 8 Fingerprinter flag sets: FingerprintClientHello -> ApplyPreset -> build with a different server name of the same length; normalised hello (GREASE, per-connection parts masked with sizes kept) and total length must be equal, and a second fingerprint/build round must reproduce the first. Allowed: error without AllowBluntMimicry; appended padding under AlwaysAddPadding; PSK dropped under RealPSKResumption. Plus every source x 8 second sources parsed by FromRaw into ONE spec variable: the value copy kept after the first parse must still reproduce the first hello and the variable the second. distinct = (source, flags)"
 			c.Assumptions = []string{"normaliser (mc/props/norm.go) masks exactly the per-connection material the property lists"}
 			runAll(c, c06Scenarios(thorough), 0)
 			c.Gate(c.Total.Counters["compared"] > 2000, "non-vacuity: %d comparisons", c.Total.Counters["compared"])
